@@ -291,6 +291,23 @@ def check_numpy(tier, seed):
                 v[0, 0] = 99.0
                 return A2
             cases.append(("write_through_view", m_view_write, n_view_write))
+
+            def m_eager():
+                M2 = M.copy()
+                derived = N.binop(I, "+", M2, 1.0, None)
+                mask = N.np_isnan(I, [M2], {}, None)
+                N.setitem(I, M2, (0, 0), 55.0, None)          # later write must not leak into derived arrays
+                N.setitem(I, M2, mask, 7.0, None)
+                return N.np_hstack(I, [(derived, M2)], {}, None)
+
+            def n_eager():
+                A2 = A.copy()
+                derived = A2 + 1.0
+                mask = np.isnan(A2)
+                A2[0, 0] = 55.0
+                A2[mask] = 7.0
+                return np.hstack((derived, A2))
+            cases.append(("eager_evaluation", m_eager, n_eager))
             cases.append(("reshape", lambda: N.reshape(I, N.getitem(I, M, (sl(None, None, None), 0), None), [-1, 1], None), lambda: A[:, 0].reshape(-1, 1)))
             bx = ~np.all(np.isnan(A), axis=1)
             cases.append(("argmax", lambda: NDArr0(I, N.np_argmax(I, [N.unary(I, __import__("ast").Invert(), N.np_all(I, [N.np_isnan(I, [M], {}, None)], {"axis": 1}, None), None)], {}, None)),
